@@ -44,6 +44,9 @@ pub fn install_hook() {
                     format!("{}:{}", f, l.line())
                 })
                 .unwrap_or_else(|| "<unknown>".into());
+            if std::env::var("VERIF_BACKTRACE").is_ok() {
+                eprintln!("panic at {location}: {message}\n{}", std::backtrace::Backtrace::force_capture());
+            }
             if capturing {
                 LAST.with(|l| *l.borrow_mut() = Some(PanicInfo { message, location }));
             } else {
